@@ -18,13 +18,16 @@ pub fn new_box(area: &str) -> Option<Box<dyn VerifBox>> {
         "c17" => Some(Box::new(
             crate::protocol::libp2p::kademlia::verif_c17::StoreBox::new(),
         )),
+        "c08" => Some(Box::new(
+            crate::protocol::verif_c08::ServiceBox::new(),
+        )),
         _ => None,
     }
 }
 
 /// Names of all adapters.
 pub fn areas() -> Vec<&'static str> {
-    vec!["c17"]
+    vec!["c17", "c08"]
 }
 
 /// Decode a hex string.
